@@ -375,7 +375,7 @@ def run(ctx):
                 bad.append(((m, e), ln, r))
             if x <= TS_FLOAT_LIMIT:
                 in_range += 1
-                if (x * 1000 * 2) % 2 == 1:
+                if (float(x) * 1000) % 1 == 0.5:      # the binary64 product is a half-integer: round() has to break a tie
                     ties += 1
                 back = Fraction(m2) * Fraction(2) ** e2
                 if not abs(back - x) < Fraction(1, 1000):
@@ -386,7 +386,7 @@ def run(ctx):
                               'oracle': {'verdict': 'fail', 'clause': '|to_py(to_xml(x)) - x| < 1 ms'}})
         if bad or len(model) != len(ts_floats):
             ctx.broken('correspondence', 'ts-float', {'disagreements': len(bad), 'first (x, model N a S, impl N m e)': bad[:1]})
-        ctx.count('ts-float', len(ts_floats), [tuple(x) for x in ts_floats], in_claimed_range=in_range, exact_half_ms_ties=ties)
+        ctx.count('ts-float', len(ts_floats), [tuple(x) for x in ts_floats], in_claimed_range=in_range, product_is_half_integer_tie=ties)
 
         model = run_driver(exe, ['X {:b} {:b}'.format(*Fraction(Decimal(t) if k == 'dec' else int(t)).as_integer_ratio()) for k, t in ts_exact], procs)
         bad = []
